@@ -7,6 +7,7 @@ import (
 	"fmt"
 	"go/constant"
 	"go/token"
+	"go/types"
 	"math/big"
 	"sort"
 	"strings"
@@ -662,6 +663,12 @@ type c19NextWait struct {
 // nextWaits searches forward from the edge prev->start (the error edge of a
 // fetch) for the first clock wait on every path, resolving loop variables
 // (phis) along the path taken. Paths that leave the function are ignored.
+// c19Known is what the path search knows about a value: a constant, or "non-nil".
+type c19Known struct {
+	c      *ssa.Const
+	nonNil bool
+}
+
 func (x *c19) nextWaits(start, prev *ssa.BasicBlock, waits map[*ssa.Function]bool, failed ssa.Value) []c19NextWait {
 	// sameErr: o denotes the error value known non-nil on this search (the
 	// same SSA value, or another load of the same variable cell)
@@ -679,49 +686,190 @@ func (x *c19) nextWaits(start, prev *ssa.BasicBlock, waits map[*ssa.Function]boo
 		return false
 	}
 	var out []c19NextWait
-	type key struct{ b, p *ssa.BasicBlock }
+	type key struct {
+		b, p *ssa.BasicBlock
+		ctx  int
+	}
 	seen := map[key]bool{}
-	var dfs func(b, p *ssa.BasicBlock, sel map[*ssa.Phi]ssa.Value, depth int)
-	dfs = func(b, p *ssa.BasicBlock, sel map[*ssa.Phi]ssa.Value, depth int) {
-		if seen[key{b, p}] || depth > 200 {
+	nctx := 0
+
+	// evalCond: the truth value of a branch condition under what is known
+	var evalCond func(v ssa.Value, known map[ssa.Value]c19Known, depth int) (val, ok bool)
+	constOf := func(v ssa.Value, known map[ssa.Value]c19Known) (*ssa.Const, bool, bool) { // const, nonNil, ok
+		if c, isC := v.(*ssa.Const); isC {
+			return c, false, true
+		}
+		if k, has := known[v]; has {
+			return k.c, k.nonNil, true
+		}
+		if sameErr(v) {
+			return nil, true, true
+		}
+		return nil, false, false
+	}
+	evalCond = func(v ssa.Value, known map[ssa.Value]c19Known, depth int) (bool, bool) {
+		if depth > 6 {
+			return false, false
+		}
+		if c, _, ok := constOf(v, known); ok && c != nil && c.Value != nil && c.Value.Kind() == constant.Bool {
+			return constant.BoolVal(c.Value), true
+		}
+		switch t := v.(type) {
+		case *ssa.UnOp:
+			if t.Op == token.NOT {
+				if b, ok := evalCond(t.X, known, depth+1); ok {
+					return !b, true
+				}
+			}
+		case *ssa.BinOp:
+			if t.Op != token.EQL && t.Op != token.NEQ {
+				return false, false
+			}
+			cx, nx, okx := constOf(t.X, known)
+			cy, ny, oky := constOf(t.Y, known)
+			if !okx || !oky {
+				return false, false
+			}
+			eq, decided := false, false
+			switch {
+			case nx && cy != nil && cy.IsNil(), ny && cx != nil && cx.IsNil():
+				eq, decided = false, true
+			case cx != nil && cy != nil && cx.IsNil() && cy.IsNil():
+				eq, decided = true, true
+			case cx != nil && cy != nil && cx.Value != nil && cy.Value != nil && cx.Value.Kind() == cy.Value.Kind():
+				eq, decided = constant.Compare(cx.Value, token.EQL, cy.Value), true
+			case cx != nil && cy != nil && (cx.IsNil() != cy.IsNil()) && (cx.Value == nil || cy.Value == nil):
+				// nil against a non-nil constant of pointer-like type cannot occur; leave undecided
+			}
+			if decided {
+				if t.Op == token.NEQ {
+					return !eq, true
+				}
+				return eq, true
+			}
+		}
+		return false, false
+	}
+
+	// slots: the value last stored on this path into a local cell (result slots of functions with defers)
+	slots := map[*ssa.Alloc]ssa.Value{}
+	var dfs func(b *ssa.BasicBlock, from int, p *ssa.BasicBlock, sel map[*ssa.Phi]ssa.Value, known map[ssa.Value]c19Known, ctx, up, depth int)
+	dfs = func(b *ssa.BasicBlock, from int, p *ssa.BasicBlock, sel map[*ssa.Phi]ssa.Value, known map[ssa.Value]c19Known, ctx, up, depth int) {
+		// stores made in this block are undone when the search backtracks
+		var undo []func()
+		defer func() {
+			for i := len(undo) - 1; i >= 0; i-- {
+				undo[i]()
+			}
+		}()
+		if depth > 300 {
 			return
 		}
-		seen[key{b, p}] = true
+		if from == 0 {
+			if seen[key{b, p, ctx}] {
+				return
+			}
+			seen[key{b, p, ctx}] = true
+		}
 		// bind the phis of b for the edge p->b (simultaneous assignment)
-		idx := -1
-		for i, q := range b.Preds {
-			if q == p {
-				idx = i
-			}
-		}
 		nsel := sel
-		bound := false
-		for _, in := range b.Instrs {
-			phi, ok := in.(*ssa.Phi)
-			if !ok {
-				break
-			}
-			if idx < 0 || idx >= len(phi.Edges) {
-				continue
-			}
-			if !bound {
-				nsel = map[*ssa.Phi]ssa.Value{}
-				for k, v := range sel {
-					nsel[k] = v
-				}
-				bound = true
-			}
-			e := phi.Edges[idx]
-			if ep, ok := e.(*ssa.Phi); ok {
-				if v, ok := sel[ep]; ok {
-					e = v
+		if from == 0 && p != nil {
+			idx := -1
+			for i, q := range b.Preds {
+				if q == p {
+					idx = i
 				}
 			}
-			nsel[phi] = e
+			bound := false
+			for _, in := range b.Instrs {
+				phi, ok := in.(*ssa.Phi)
+				if !ok {
+					break
+				}
+				if idx < 0 || idx >= len(phi.Edges) {
+					continue
+				}
+				if !bound {
+					nsel = map[*ssa.Phi]ssa.Value{}
+					for k, v := range sel {
+						nsel[k] = v
+					}
+					bound = true
+				}
+				e := phi.Edges[idx]
+				if ep, ok := e.(*ssa.Phi); ok {
+					if v, ok := sel[ep]; ok {
+						e = v
+					}
+				}
+				nsel[phi] = e
+			}
 		}
-		for _, in := range b.Instrs {
+		for i := from; i < len(b.Instrs); i++ {
+			in := b.Instrs[i]
 			switch t := in.(type) {
+			case *ssa.Store:
+				if a, ok := t.Addr.(*ssa.Alloc); ok {
+					old, had := slots[a]
+					slots[a] = t.Val
+					undo = append(undo, func() {
+						if had {
+							slots[a] = old
+						} else {
+							delete(slots, a)
+						}
+					})
+				}
 			case *ssa.Return:
+				// the path leaves a phase helper: continue after each of its calls, with
+				// what this path returns (constants, the failed error) known to the caller
+				fn := b.Parent()
+				sites, ok := x.callers(fn)
+				if !ok || up >= 3 {
+					return
+				}
+				for _, s := range sites {
+					call, isCall := s.instr.(*ssa.Call)
+					if !isCall {
+						continue
+					}
+					nk := map[ssa.Value]c19Known{}
+					for ri, rv := range t.Results {
+						v := rv
+						if ld, isLd := rv.(*ssa.UnOp); isLd && ld.Op == token.MUL {
+							if a, isA := ld.X.(*ssa.Alloc); isA {
+								if sv, has := slots[a]; has {
+									v = sv // the result slot as written on this path
+								} else if vals := unspill(rv); len(vals) == 1 {
+									v = vals[0]
+								} else {
+									continue
+								}
+							}
+						}
+						if ph, isPhi := v.(*ssa.Phi); isPhi {
+							if sv, has := nsel[ph]; has {
+								v = sv
+							}
+						}
+						var kn c19Known
+						if c, nn, ok := constOf(v, known); ok {
+							kn = c19Known{c: c, nonNil: nn}
+						} else if bv, ok := evalCond(v, known, 0); ok {
+							// a flag computed from what the path knows (ok := err == nil)
+							kn = c19Known{c: ssa.NewConst(constant.MakeBool(bv), types.Typ[types.Bool])}
+						} else {
+							continue
+						}
+						if len(t.Results) == 1 {
+							nk[call] = kn
+						} else if ex := callResult(call, ri); ex != nil {
+							nk[ex] = kn
+						}
+					}
+					nctx++
+					dfs(call.Block(), instrIndex(call)+1, nil, map[*ssa.Phi]ssa.Value{}, nk, nctx, up+1, depth+1)
+				}
 				return
 			case *ssa.Call:
 				if d, ok := c19ClockWait(t); ok {
@@ -760,33 +908,25 @@ func (x *c19) nextWaits(start, prev *ssa.BasicBlock, waits map[*ssa.Function]boo
 				}
 			}
 		}
-		// a later test of the same error: only the non-nil side is feasible
+		// a branch whose condition is decided by what this path knows (a later
+		// test of the failed error, a flag / enum returned by a phase helper)
 		if len(b.Instrs) > 0 && len(b.Succs) == 2 {
 			if ifi, ok := b.Instrs[len(b.Instrs)-1].(*ssa.If); ok {
-				if cmp, ok := decodeCond(ifi.Cond, true); ok && (cmp.Op == token.EQL || cmp.Op == token.NEQ) {
-					var o ssa.Value
-					switch {
-					case isNilConst(cmp.Y):
-						o = cmp.X
-					case isNilConst(cmp.X):
-						o = cmp.Y
+				if val, ok := evalCond(ifi.Cond, known, 0); ok {
+					if val {
+						dfs(b.Succs[0], 0, b, nsel, known, ctx, up, depth+1)
+					} else {
+						dfs(b.Succs[1], 0, b, nsel, known, ctx, up, depth+1)
 					}
-					if o != nil && sameErr(o) {
-						if cmp.Op == token.NEQ {
-							dfs(b.Succs[0], b, nsel, depth+1)
-						} else {
-							dfs(b.Succs[1], b, nsel, depth+1)
-						}
-						return
-					}
+					return
 				}
 			}
 		}
 		for _, s := range b.Succs {
-			dfs(s, b, nsel, depth+1)
+			dfs(s, 0, b, nsel, known, ctx, up, depth+1)
 		}
 	}
-	dfs(start, prev, map[*ssa.Phi]ssa.Value{}, 0)
+	dfs(start, 0, prev, map[*ssa.Phi]ssa.Value{}, map[ssa.Value]c19Known{}, 0, 0, 0)
 	return out
 }
 
